@@ -78,12 +78,17 @@ CLAIMED["C01"] = {
 }
 CLAIMED["C05"] = {
     "engine": "E2 event words + effect analysis",
-    "technique": "key->operation table from interprocedural event words; effect analysis (abstract interpretation) of Editor methods for reject purity and cursor moves",
+    "technique": "key->operation table from interprocedural event words; effect analysis (abstract interpretation) of Editor methods for reject purity and cursor moves; unit (dimension) analysis and buffer-content segment algebra in a linear abstract domain with Fourier-Motzkin entailment",
     "text": ("Decides the key->editor-operation table for every path (Char: one insert of the typed text; Backspace: move_left then remove iff "
              "moved, adjacent; Left/Right: the single move; Tab: autocompletion only), that the rejecting exits of insert/move_left/move_right "
              "write nothing, and that the moves change the cursor by exactly one with move_left guarded by cursor>0. "
              "Character units: Editor::len is the character count, move_right is guarded by cursor < len(), a completion leaves the cursor at len(). "
-             "Not decided: equality with an ideal editor over arbitrary edit histories; the capacity guard as arithmetic is under C03." + IMP +
+             "Unit analysis of every Editor method in the linear domain: characters (cursor, char_count results) and bytes (valid, lengths, "
+             "capacities, byte offsets) are never combined in a comparison, index or bounds check, and the cursor / valid fields keep their unit. "
+             "Content effects by a segment algebra over the linear domain, for every buffer content, size, cursor and text: an accepted "
+             "insert(t) leaves text[..i] ++ t ++ text[i..] with i = char_byte_index(text, cursor) (or the end), valid + len(t), cursor + "
+             "char_count(t) and returns the inserted copy; remove() leaves text[..i] ++ text[j..] with j the next character's offset; clear() "
+             "zeroes both. Not decided: Editor::autocompletion's content effect; the capacity guard as arithmetic is under C03." + IMP +
              "C17.counting / C17.A (char_count and char_byte_index count scalars)."),
     "design_ref": "DESIGN.md §4 C05",
     "note": TB,
@@ -96,7 +101,13 @@ CLAIMED["C10"] = {
              "the History method the Enter arm calls), that recall never writes the store, the space accounting of push on every path and for every "
              "capacity in the linear domain (a path that removes an older copy leaves `used` unchanged; a path that moves nothing records nothing "
              "or appends exactly len+1; eviction only where used+len+1 > capacity), and that every comparison of the submitted line with stored "
-             "text is with a slice starting at an entry start. Not decided: order and deduplication as values over arbitrary histories."),
+             "text is with a slice starting at an entry start. Content effects by a segment algebra over the linear domain (every content, "
+             "capacity and line): after push the bytes in use are stored bytes in their old order, the line, one NUL; dropped are at most one "
+             "len+1 range at an entry start (the older copy) and at most one prefix ending just after the first NUL at or beyond the bytes "
+             "that must be freed (or everything when nothing less suffices); next_older / next_newer return exactly the entry directly "
+             "before / after the current position (start at an entry start, end at the next NUL) and move the cursor to its start. "
+             "Not decided: the byte-wise equality of the deduplication test as a value; the NUL-separated representation itself is C03's "
+             "assumed invariant."),
     "design_ref": "DESIGN.md §4 C10",
     "note": TB,
 }
@@ -108,7 +119,8 @@ CLAIMED["C12"] = {
              "HelpRequest::from_command against the statement, and for the declaration corpus the derive-generated help: list_commands / "
              "command_count / group listing against the oracle, UnknownCommand for undeclared names, the option-skipping walker on every argument "
              "word up to the depth bound (own help vs. delegation to the right sub-command), and the presence of usage path, positionals, every "
-             "option with its names and value name, `-h, --help` and the sub-command list in a command's own help. Not decided: text layout, "
+             "option with its names and value name, `-h, --help` and the sub-command list in a command's own help; and sibling agreement: for "
+             "every explored word the derived help walker and the derived parser pick the same token as sub-command name. Not decided: text layout, "
              "declarations outside the corpus." + IMP + "C08.classify (help options are found among ArgsIter's classified items)."),
     "design_ref": "DESIGN.md §4 C12",
     "note": TB,
@@ -205,7 +217,7 @@ CLAIMED["C03"] = {
              "proved from their MIR) and three struct invariants that are themselves proved inductively; or assumed (14 sites resting on buffer-content "
              "invariants: NUL termination of history entries, the tokenizer's insert <= cursor_pos, one debug assertion delegated to C02, two sites "
              "unreachable because text_range is only instantiated with RangeFrom - that condition is re-checked on every run) - printed, never counted "
-             "as proved; anything else is a violation. The Utf8Accum and encode_utf8 obligations are decided in the value-set domain over the "
+             "as proved; anything else - including a site no analysed path reaches - is a violation. The Utf8Accum and encode_utf8 obligations are decided in the value-set domain over the "
              "extracted reachable decoder states / in the callers' context. Not decided: UTF-8 validity preconditions (C02), the content invariants."),
     "design_ref": "DESIGN.md §4 C03, §2 E3",
     "note": TB + " Assumes Buffer::len is stable for a given buffer (true for the two impls in buffer.rs) and that all sizes are <= isize::MAX.",
